@@ -49,7 +49,9 @@ TIERS = {
         patch_check=[dict(MaxStmts=6, StmtKinds=ALL_STMT), dict(MaxStmts=7, StmtKinds=SOME_STMT)],
         patch_emit=dict(MaxStmts=7, StmtKinds=ALL_STMT),
         walk_check=[dict(MaxNodes=4, NodeKinds=ALL_NODE, Ordered=False)],
-        walk_emit=[dict(MaxNodes=4, NodeKinds=ALL_NODE, Ordered=True), dict(MaxNodes=5, NodeKinds=SOME_NODE, Ordered=True)],
+        walk_emit=[dict(MaxNodes=4, NodeKinds=ALL_NODE, Ordered=True),
+                   dict(MaxNodes=5, NodeKinds={"pkg_t", "priv_t", "law_d", "law_u"}, Ordered=True),
+                   dict(MaxNodes=6, NodeKinds={"pkg_t", "law_d", "law_u"}, Ordered=True)],
         runs=[("probe", 0), ("plain", 1), ("preuse", 2), ("plain", 12345)]),
 }
 P_INV = ["PTypeOK", "FlagTrueAtEnd", "DisabledExactlyAroundDocumentedMembers", "MembersExecuted", "LogAdmitted",
